@@ -1,6 +1,6 @@
 (* The report-exactness theorem for whole generated files, and its corollaries. *)
 From GV Require Import Base.Bytes Base.Utf8 Base.StrOps Base.GoFloat GoLite.Syntax GoLite.Sem.
-From GV Require Import Gen.Decl Gen.Rules Gen.Template Gen.Spec Gen.Guard Gen.GenProofs1 Gen.GenProofs2 Gen.GenProofs3.
+From GV Require Import Gen.Decl Gen.Rules Gen.Template Gen.Spec Gen.Guard Gen.GenProofs1 Gen.Typed Gen.GenProofs2 Gen.GenProofs3.
 
 (* ---------- from the decidable guard to the shape conditions of the proof ---------- *)
 Fixpoint nested_ok (fd : field) : kf_nested_field_marker_f fd = false -> field_ok [] fd.
@@ -65,6 +65,34 @@ Section Exact.
   Variable ipc : bytes -> ipclass.
   Variable tab : numtab.
 
+  (* the common core: either the run is ill-typed (RStuck) - and then some marker parameter of the declaration is
+     outside the documented language - or it returns exactly the expected report *)
+  Lemma gen_exact_core d f root :
+    in_guard tab d = true -> gen_file tab d = Some f -> wt_struct d root ->
+    let o := exec_file ipc background f (Some root) in
+    (o_res o = RStuck /\ params_ok tab d = false) \/
+    (report_of (o_res o) = Some (map projw (expected ipc tab d root)) /\
+     (o_res o = RNil <-> expected ipc tab d root = []) /\
+     s_gw (o_st o) = [] /\ s_allocs (o_st o) = 2 * length (expected ipc tab d root)).
+  Proof.
+    intros G Hf (cur & -> & W). destruct (mask_zero tab d G) as (G1 & G2 & _ & G4).
+    destruct (gen_file_shape tab d f Hf) as (Hi & Ht & Htl & _).
+    cbn zeta. unfold exec_file. rewrite Hi, Ht, Htl.
+    pose proof (fields_run ipc tab (sentinel_table (err_decls (all_validators (analyze tab d)) [])) (params_ok tab d = false)
+                  (VStruct cur) (sorted_markers (sd_doc d)) (sd_name d) cur (sd_fields d) eq_refl
+                  (guard_fields_ok d G1 G2) W) as R.
+    fold (analyze tab d) in R.
+    specialize (R (lookup_exact _ (names_ok_of_guard tab d G4)) (fun X => X) st0 eq_refl).
+    unfold expected.
+    destruct (run_items _ _ _ _ _ _ _) as [s|o]; [|left; exact R].
+    right. destruct R as (E & _ & Gw & Al). cbn [s_errs st0 map app] in E. cbn [s_gw s_allocs st0] in Gw, Al.
+    cbn [o_res o_st]. rewrite Gw. split; [|split; [|split; [reflexivity|exact Al]]].
+    - destruct (s_errs s) as [|e es] eqn:Es; cbn [report_of]; [rewrite <- E; reflexivity|rewrite E; reflexivity].
+    - destruct (s_errs s) as [|e es] eqn:Es.
+      + split; [intros _|reflexivity]. cbn in E. symmetry in E. apply map_eq_nil in E. exact E.
+      + split; [discriminate|]. intro X. rewrite X in E. discriminate E.
+  Qed.
+
   (* C07: with a context that is never done, Validate<T>Context(ctx, &v) either does not type-check
      (RStuck: outside the documented parameter language) or returns exactly the expected report *)
   Theorem gen_exact d f root :
@@ -75,22 +103,21 @@ Section Exact.
      (o_res o = RNil <-> expected ipc tab d root = []) /\
      s_gw (o_st o) = [] /\ s_allocs (o_st o) = 2 * length (expected ipc tab d root)).
   Proof.
-    intros G Hf (cur & -> & W). destruct (mask_zero tab d G) as (G1 & G2 & _ & G4).
-    destruct (gen_file_shape tab d f Hf) as (Hi & Ht & Htl & _).
-    cbn zeta. unfold exec_file. rewrite Hi, Ht, Htl.
-    pose proof (fields_run ipc tab (sentinel_table (err_decls (all_validators (analyze tab d)) []))
-                  (VStruct cur) (sorted_markers (sd_doc d)) (sd_name d) cur (sd_fields d) eq_refl
-                  (guard_fields_ok d G1 G2) W) as R.
-    fold (analyze tab d) in R.
-    specialize (R (lookup_exact _ (names_ok_of_guard tab d G4)) st0 eq_refl).
-    unfold expected.
-    destruct (run_items _ _ _ _ _ _ _) as [s|o]; [|left; exact R].
-    right. destruct R as (E & _ & Gw & Al). cbn [s_errs st0 map app] in E. cbn [s_gw s_allocs st0] in Gw, Al.
-    cbn [o_res o_st]. rewrite Gw. split; [|split; [|split; [reflexivity|exact Al]]].
-    - destruct (s_errs s) as [|e es] eqn:Es; cbn [report_of]; [rewrite <- E; reflexivity|rewrite E; reflexivity].
-    - destruct (s_errs s) as [|e es] eqn:Es.
-      + split; [intros _|reflexivity]. cbn in E. symmetry in E. apply map_eq_nil in E. exact E.
-      + split; [discriminate|]. intro X. rewrite X in E. discriminate E.
+    intros G Hf W. destruct (gen_exact_core d f root G Hf W) as [[H _]|H]; [left; exact H|right; exact H].
+  Qed.
+
+  (* the same without the escape: when every marker parameter is in the documented language (params_ok, decidable)
+     the generated code is well-typed and returns exactly the expected report *)
+  Theorem gen_exact_typed d f root :
+    in_guard tab d = true -> params_ok tab d = true -> gen_file tab d = Some f -> wt_struct d root ->
+    let o := exec_file ipc background f (Some root) in
+    o_res o <> RStuck /\
+    report_of (o_res o) = Some (map projw (expected ipc tab d root)) /\
+    (o_res o = RNil <-> expected ipc tab d root = []) /\
+    s_gw (o_st o) = [] /\ s_allocs (o_st o) = 2 * length (expected ipc tab d root).
+  Proof.
+    intros G P Hf W. destruct (gen_exact_core d f root G Hf W) as [[_ H]|H]; [congruence|].
+    split; [|exact H]. destruct H as (H & _). intro X. cbn zeta in *. rewrite X in H. discriminate H.
   Qed.
 
   (* a nil receiver yields the ErrNil<T> sentinel, before anything else *)
